@@ -14,7 +14,9 @@
 
    The result is a list of failed clauses (code, a, b); lin_ok = no failed clause.
    Codes 112 / 135 are clauses 12 / 35 where the offending object is an object stream (the needed
-   object is one of its members). *)
+   object is one of its members); 212 is clause 12 where the object is also reached from /Outlines
+   (not opened with the document); 235 is clause 35 where the object is also reached from a catalog
+   key other than /Pages or from a trailer key. *)
 From Coq Require Import String Ascii.
 From QV Require Import Base.Bytes File.StrictSyntax File.Inflate File.ReadStrict Lin.HintTypes.
 Local Open Scope N_scope.
@@ -357,6 +359,7 @@ Section HintClauses.
   Variable pages : list N.                (* page objects *)
   Variable needs : list (list N).         (* per page: containers of what it needs *)
   Variable outline_set : list N.          (* containers of what /Outlines reaches *)
+  Variable doclevel_set : list N.         (* containers of what catalog keys other than /Pages, and trailer keys, reach *)
   Variable use_outlines : bool.
   Variable first_page_obj_off : N.
 
@@ -407,7 +410,8 @@ Section HintClauses.
                                       match af_find objs c with
                                       | Some o => match af_off o with
                                                   | Some a => af_when (first_page_obj_off <=? a)
-                                                                (af_err (if af_has_type n_ObjStm (so_val o) then 135 else 35) i c)
+                                                                (af_err (if af_has_type n_ObjStm (so_val o) then 135
+                                                                         else if af_mem c doclevel_set then 235 else 35) i c)
                                                   | None => []
                                                   end
                                       | None => []
@@ -603,17 +607,21 @@ Definition lin_check (file : list N) : af_report :=
                                    | Some ps => map (fun p => cont (af_page_needs fuel objs p)) ps
                                    | None => []
                                    end in
-                      let e12 := flat_map (fun c => match af_find objs c with
-                                                    | Some o => match af_off o with
-                                                                | Some a => af_when (E <=? a) (af_err (if af_has_type n_ObjStm (so_val o) then 112 else 12) c a)
-                                                                | None => [] end
-                                                    | None => [] end) (hd [] needs) in
-                      (* hint tables *)
                       let outl := match dict_get catd afn_Outlines with
                                   | Some (PRef orf _) => cont (af_closure fuel objs [orf] [])
                                   | _ => []
                                   end in
                       let use_outl := match dict_get catd afn_PageMode with Some (PName m) => beq m afn_UseOutlines | _ => false end in
+                      let doclevel := af_dedup (
+                                        flat_map (fun kv => if beq (fst kv) afn_Pages then [] else cont (af_closure fuel objs (af_refs (snd kv)) [])) catd ++
+                                        flat_map (fun kv => if beq (fst kv) n_Root then [] else cont (af_closure fuel objs (af_refs (snd kv)) [])) (sf_trailer sf)) in
+                      let e12 := flat_map (fun c => match af_find objs c with
+                                                    | Some o => match af_off o with
+                                                                | Some a => af_when (E <=? a) (af_err (if af_has_type n_ObjStm (so_val o) then 112
+                                                                                                       else if af_mem c outl && negb use_outl then 212 else 12) c a)
+                                                                | None => [] end
+                                                    | None => [] end) (hd [] needs) in
+                      (* hint tables *)
                       let base := e2 ++ e3 ++ e4 ++ e56 ++ e78 ++ e13 ++ e9 ++ e11 ++ e14 ++ e10 ++ e12 in
                       let mk := fun errs notes data so tables meas =>
                         {| ar_errors := errs; ar_notes := notes; ar_params := params; ar_hint_data := data; ar_hint_SO := so;
@@ -630,7 +638,7 @@ Definition lin_check (file : list N) : af_report :=
                                   | None => mk (base ++ af_err 21 0 0) n78 data (hS, match Oo with Some o => o | None => 0 end) None []
                                   | Some (hp, hs, hg, ends) =>
                                       let p0off := match af_find objs p0 with Some o => match af_off o with Some a => a | None => 0 end | None => 0 end in
-                                      let '(herrs, meas) := af_hint_clauses objs h0 h1 ps needs outl use_outl p0off pO hp hs hg ends hS Oo in
+                                      let '(herrs, meas) := af_hint_clauses objs h0 h1 ps needs outl doclevel use_outl p0off pO hp hs hg ends hS Oo in
                                       mk (base ++ herrs) n78 data (hS, match Oo with Some o => o | None => 0 end) (Some (hp, hs, hg)) meas
                                   end
                               | _, _ => mk (base ++ af_err 20 0 0) n78 [] (0, 0) None []
